@@ -75,11 +75,13 @@ literal = st.tuples(st.one_of(small, small, st.integers(-40, 120)),
 @functools.lru_cache(maxsize=None)
 def int_operand(in_loop):
     ctrs = COUNTERS + (LOOPCTRS if in_loop else [])
-    return st.one_of(
+    plain = st.one_of(
         literal, literal,
         st.sampled_from(ctrs).map(lambda c: ["value", c]),
         st.sampled_from(ctrs).map(lambda c: ["arabic", c]),
         st.sampled_from(IMACS).map(lambda n: ["mac", n]))
+    # a minus sign in front of any operand (the operand's own value may be negative: a sign run)
+    return st.one_of(plain, plain, plain, plain, plain.map(lambda I: ["neg", I]))
 
 
 REL = st.sampled_from(["<", "=", ">"])
@@ -222,6 +224,12 @@ def if_stmt(draw, nest, in_loop, edepth):
         return out
     then = block()
     els = block()
+    # sometimes one branch is the empty group (no marker either)
+    e = draw(st.integers(0, 9))
+    if e == 0:
+        then = [["empty"]]
+    elif e == 1:
+        els = [["empty"]]
     if notes:       # optional 5th element: what was chosen away for listed known findings (not interpreted)
         return ["if", E, then, els, notes]
     return ["if", E, then, els]
